@@ -103,6 +103,8 @@ type SynthBackend struct {
 	recorder
 	// ResultFn decides the outcome of the hand from the start state: changed[i] for game index i
 	ResultFn func(gs *pokerface.GameState) []int64
+	// BeforeClosed, when set, is called once the hand's last answer is in and before the closed hand state is returned
+	BeforeClosed func()
 	// FailCreate makes CreateGame fail (mimics the engine refusing a zero bankroll etc. is built in)
 	gameN int64
 }
@@ -165,6 +167,11 @@ func (sb *SynthBackend) ReadyForAll(gs *pokerface.GameState) (*pokerface.GameSta
 	if gs.Status.CurrentEvent != "ReadyRequested" {
 		sb.rec("readyforall", 0, gs, nil, pokerface.ErrInvalidAction, nil)
 		return nil, pokerface.ErrInvalidAction
+	}
+	// whoever wants to act in the moment between the hand's last accepted answer and its settlement does it here: this
+	// runs on the ready group's goroutine, the engine lock not held, before the closed state reaches the table
+	if f := sb.BeforeClosed; f != nil {
+		f()
 	}
 	out := cloneGS(gs)
 	changed := sb.ResultFn(out)
